@@ -5,6 +5,8 @@ package checks
 import (
 	"encoding/json"
 	"fmt"
+	"os"
+	"os/exec"
 	"strings"
 	"time"
 
@@ -109,7 +111,21 @@ func c15Ops() []c15Op {
 		}
 		return c15Op{Name: name, Do: func(env *c15Env) string { return runOnPooledPoint(env.scripts[script], pts[pi], fireAt) }}
 	}
+	// load a fresh script set and run its entry script: the outcome shows what the load produced
+	loadRun := func(name string, set map[string]string, main string, pi int) c15Op {
+		return c15Op{Name: "loadrun(" + name + ")", Do: func(env *c15Env) string {
+			ok, errs := drv.Load(set)
+			if e, bad := errs[main]; bad {
+				return "load-error: " + e.Error()
+			}
+			return runOnPooledPoint(ok[main], pts[pi], 0)
+		}}
+	}
+	grokExpr := "grok(_, \"%{WORD:first} %{INT:n:int}\")\n"
 	return []c15Op{
+		loadRun("grok with global patterns", map[string]string{"g.p": "if true {\n" + grokExpr + "}\n"}, "g.p", 0),
+		loadRun("grok under a local pattern of the same name", map[string]string{"g.p": "add_pattern(\"WORD\", \"[a-z]+ [0-9]\")\nif true {\n" + grokExpr + "}\n"}, "g.p", 0),
+		loadRun("other deployment with the same entry text", map[string]string{"grok.p": c15Sources["grok.p"], "ok.p": "add_key(other_deployment, true)\n"}, "grok.p", 0),
 		load("valid", "x = [1, 2]\nif x { add_key(k, len(x)) }\ngrok(_, \"%{WORD:w}\")\n"),
 		load("syntax-error", "a = (1 +\nb = 2\n"),
 		load("lexer-error", "a = \"unterminated\nb = 2\n"),
@@ -178,17 +194,25 @@ func c15Run(w *run.Worker) {
 		return
 	}
 	env.scripts = loaded
-	// baselines: each operation executed first, with empty pools
+	// baselines: each operation executed FIRST IN A FRESH PROCESS (package-level state
+	// such as caches cannot be reset from inside a process)
 	base := make([]string, len(ops))
+	exe, _ := os.Executable()
 	for i := range ops {
-		out, _, _, _ := c15Exec(env, ops, []int{i}, nil)
-		out2, _, _, _ := c15Exec(env, ops, []int{i}, nil)
-		if out != out2 {
-			w.Violate("C15:operation-not-deterministic:"+ops[i].Name, fmt.Sprintf("%s alone, twice:\n%s\n%s", ops[i].Name, out, out2), c15Case{History: []int{i}})
+		raw, err := exec.Command(exe, "c15base", fmt.Sprint(i)).Output()
+		if err != nil {
+			w.Violate("C15:harness:baseline-process-failed", fmt.Sprintf("%s: %v", ops[i].Name, err), c15Case{History: []int{i}})
+			return
 		}
-		base[i] = out
-		if strings.HasPrefix(out, "PANIC") {
-			w.Violate("C15:panic", out, c15Case{History: []int{i}})
+		base[i] = string(raw)
+		out, _, _, _ := c15Exec(env, ops, []int{i}, nil)
+		if out != base[i] && w.Shard == 0 {
+			// the worker process itself is fresh at this point apart from the operations before i
+			w.Violate("C15:outcome-depends-on-history:"+ops[i].Name+":after-earlier-baselines",
+				fmt.Sprintf("%s in a fresh process gives %s\nafter the operations %v in this process it gives %s", ops[i].Name, base[i], opNames(ops[:i]), out), c15Case{History: []int{i}})
+		}
+		if strings.HasPrefix(base[i], "PANIC") {
+			w.Violate("C15:panic", base[i], c15Case{History: []int{i}})
 		}
 	}
 	maxLen, bound := 3, 2
@@ -265,6 +289,33 @@ func c15Run(w *run.Worker) {
 	rec()
 }
 
+func opNames(ops []c15Op) []string {
+	var out []string
+	for _, o := range ops {
+		out = append(out, o.Name)
+	}
+	return out
+}
+
+// c15BaseMain: one operation in a fresh process, outcome on stdout.
+func c15BaseMain(args []string) int {
+	ops := c15Ops()
+	env := &c15Env{}
+	loaded, errs := drv.Load(c15Sources)
+	if len(errs) > 0 || len(args) < 1 {
+		return 2
+	}
+	env.scripts = loaded
+	var i int
+	fmt.Sscanf(args[0], "%d", &i)
+	if i < 0 || i >= len(ops) {
+		return 2
+	}
+	out, _, _, _ := c15Exec(env, ops, []int{i}, nil)
+	fmt.Fprint(drv.RealStdout, out)
+	return 0
+}
+
 func c15Replay(raw json.RawMessage) (bool, string) {
 	var c c15Case
 	if err := json.Unmarshal(raw, &c); err != nil {
@@ -282,18 +333,21 @@ func c15Replay(raw json.RawMessage) (bool, string) {
 		return false, "empty history"
 	}
 	li := c.History[len(c.History)-1]
-	base, _, _, _ := c15Exec(env, ops, []int{li}, nil)
+	exe, _ := os.Executable()
+	braw, _ := exec.Command(exe, "c15base", fmt.Sprint(li)).Output()
+	base := string(braw)
 	last, _, taken, _ := c15Exec(env, ops, c.History, c.Choices)
 	return last != base, fmt.Sprintf("history %v answers %v\nlast : %s\nalone: %s", c.History, taken, last, base)
 }
 
 func init() {
+	run.Subcommands["c15base"] = c15BaseMain
 	run.Register(&run.Check{
 		ID:    "C15",
 		Level: "model_checking",
-		Rule: "operation histories of length <=3 (thorough <=4) over 15 operations: load of a valid / syntax-error / lexer-error / parser-panic / check-error source; run of scripts that succeed, fail inside a loop, exit inside nested blocks, set variables, read the same names unbound, use grok + use(), delete and re-add tags and fields, each on a point taken from the point pool; runs cancelled at poll 1 and 7; " +
+		Rule: "operation histories of length <=3 (thorough <=4) over 18 operations: load-and-run of a grok script with global patterns / under a local pattern of the same name / of another deployment whose entry file has the same text as a loaded one; load of a valid / syntax-error / lexer-error / parser-panic / check-error source; run of scripts that succeed, fail inside a loop, exit inside nested blocks, set variables, read the same names unbound, use grok + use(), delete and re-add tags and fields, each on a point taken from the point pool; runs cancelled at poll 1 and 7; " +
 			"instrumented build with a sync.Pool shim: the answer of EVERY pool Get (parser, task, point, metadata) is an explorer choice — default LIFO reuse, then every deviation (any other pooled object, or a fresh one) at every Get, <=2 deviations per history; " +
-			"oracle: the last operation's outcome (load verdict and error text / probe trace, canonical final point, error text, drop flag) equals the outcome of the same operation executed first with empty pools; loaded scripts are shared by all histories",
+			"oracle: the last operation's outcome (load verdict and error text / probe trace, canonical final point, error text, drop flag) equals the outcome of the same operation executed first in a fresh process (baselines are computed in separate subprocesses); loaded scripts are shared by all histories",
 		Assumptions: []string{"the pools and the loaded syntax trees are the only state that survives an operation (package-level variables were listed by reading the sources)"},
 		Run:            c15Run,
 		Replay:         c15Replay,
